@@ -315,7 +315,8 @@ pub enum Op {
     AggVerifyCallerPanics, // [aggsig, k(8), how(1): 0 iterator / 1 AsRef, (pk, msg)...] -> []  (always Rej)   the caller's own iterator (trait level) or message type (struct level) panics at entry k; the caller catches the unwind and goes on using the thread
     FromFickleList,    // [kind(1): 0 MultiSignature / 1 AggregateSignature, n1(8), sig...] -> [value]   from_signatures over a caller's container whose as_ref() returns the first n1 signatures on its 1st, 3rd, .. call and the remaining ones on its 2nd, 4th, .. call
     FickleMessage,     // [which(1): 0 PublicKey::sign_crypt / 1 PublicKey::encrypt_time_lock / 2 the scheme trait's sign / 3 trait-level BlsSignCrypt::seal, key, scheme, view1, view2, id (time-lock only)] -> [artefact]   the message is a caller's value whose as_ref() shows view1 on its 1st, 3rd.. call and view2 on its 2nd, 4th.. call (a window over a buffer another component appends to)
-    SplitFaultyRng,    // [sk, t, n, seed32, k(8), fill(1), width(8, optional, default 1)] -> [share..]   split_with_rng with a caller's generator whose k-th .. (k+width-1)-th requests are answered with blocks of `fill` bytes (a transient fault of the entropy source), all others from the seeded stream
+    DecodeInterrupted, // [ty, json text, k(8), how(1): 0 the reader returns an error / 1 the reader panics and the caller catches it] -> [flag(1) = a value came out]   serde_json::from_reader over a source that fails after k bytes
+    SplitFaultyRng,    // [sk, t, n, seed32, k(8), fill(1), width(8, optional, default 1), panics(1, optional): 1 = the generator PANICS at request k and the caller catches the unwind] -> [share..]   split_with_rng with a caller's generator whose k-th .. (k+width-1)-th requests are answered with blocks of `fill` bytes (a transient fault of the entropy source), all others from the seeded stream
     MultiSigVerifyKeys, // [msig, msg, pk...] -> []   trait-level BlsSignaturePop::multi_sig_verify over the list of keys
 }
 
